@@ -271,7 +271,11 @@ func (cc *checkCtx) run() int {
 		timeout = 6
 	}
 	if cc.tier == "thorough" {
-		timeout = 30
+		// never less patient than the quick tier
+		timeout = 2 * timeout
+		if timeout < 30 {
+			timeout = 30
+		}
 	}
 	// verify functions in parallel
 	findings := loadFindings()
